@@ -795,7 +795,9 @@ class AnsiString:
             obj = self.copy()
 
             # This will allow a colon to be a fill character based on the expected format
-            format_match = re.match(r'(^.?[-\+]?[<>\^]?[0-9]*)(:.*)?$', format_spec)
+            # A fill character (and the +/- flag) is only present when an alignment character follows it, so that
+            # an ansi part which starts with a digit (ex: ":31") is not taken for a colon fill character plus width
+            format_match = re.match(r'(^(?:.?[-\+]?[<>\^])?[0-9]*)(:.*)?$', format_spec)
 
             if not format_match:
                 format_parts = [format_spec]
